@@ -8,6 +8,7 @@ import (
 	"flag"
 	"fmt"
 	"os"
+	"reflect"
 	"sort"
 	"strings"
 
@@ -73,8 +74,12 @@ func facts(r aa.Rule) []string {
 	case *aa.ChangeProfile:
 		add(fmt.Sprintf("%s|%s|%s|%s", q(r.Qualifier), r.ExecMode, r.Exec, r.ProfileName), []string{"cp"})
 	case *aa.Signal:
+		acc := r.Access
+		if len(acc) == 0 {
+			acc = []string{"send", "receive"} // all the permissions a signal rule has
+		}
 		for _, s := range perms(r.Set) {
-			add(fmt.Sprintf("%s|peer=%s|sig=%s", q(r.Qualifier), r.Peer, s), perms(r.Access))
+			add(fmt.Sprintf("%s|peer=%s|sig=%s", q(r.Qualifier), r.Peer, s), acc)
 		}
 	case *aa.Ptrace:
 		add(fmt.Sprintf("%s|peer=%s", q(r.Qualifier), r.Peer), perms(r.Access))
@@ -364,6 +369,64 @@ func main() {
 				lists++
 				explained := pairBad[[2]int{ia, ib}] || pairBad[[2]int{ia, ic}] || pairBad[[2]int{ib, ic}]
 				check(*kind, []aa.Rule{U[ia], U[ib], U[ic]}, explained)
+			}
+		}
+	}
+	// triples (thorough: quadruples) inside every group of rules that agree on all non-mergeable fields: this is
+	// where merges happen, so chains such as "merge, then a rejected merge" are all there
+	groups := map[string][]int{}
+	order := []string{}
+	for i, r := range U {
+		c := universe.Clone(r)
+		v := reflect.ValueOf(c).Elem()
+		for _, f := range []string{"Access", "Set", "Names", "Options"} {
+			if fv := v.FieldByName(f); fv.IsValid() && fv.CanSet() {
+				fv.Set(reflect.Zero(fv.Type()))
+			}
+		}
+		if mc := v.FieldByName("MountConditions"); mc.IsValid() {
+			mc.FieldByName("Options").Set(reflect.Zero(mc.FieldByName("Options").Type()))
+		}
+		k := universe.Fields(c, false)
+		if _, ok := groups[k]; !ok {
+			order = append(order, k)
+		}
+		groups[k] = append(groups[k], i)
+	}
+	maxGroups, maxSize := 40, 8
+	if *tier == universe.Thorough {
+		maxGroups, maxSize = 200, 10
+	}
+	ng := 0
+	for gi, k := range order {
+		g := groups[k]
+		if len(g) < 2 {
+			continue
+		}
+		if ng >= maxGroups && gi%7 != 0 {
+			continue
+		}
+		ng++
+		if len(g) > maxSize {
+			g2 := []int{}
+			for i := 0; i < maxSize; i++ {
+				g2 = append(g2, g[i*len(g)/maxSize])
+			}
+			g = g2
+		}
+		for _, a := range g {
+			for _, b := range g {
+				for _, c := range g {
+					lists++
+					explained := pairBad[[2]int{a, b}] || pairBad[[2]int{a, c}] || pairBad[[2]int{b, c}]
+					check(*kind, []aa.Rule{U[a], U[b], U[c]}, explained)
+					if *tier == universe.Thorough && len(g) <= 8 {
+						for _, d := range g {
+							lists++
+							check(*kind, []aa.Rule{U[a], U[b], U[c], U[d]}, explained || pairBad[[2]int{a, d}] || pairBad[[2]int{b, d}] || pairBad[[2]int{c, d}])
+						}
+					}
+				}
 			}
 		}
 	}
